@@ -817,13 +817,16 @@ func (b *Builder) callTerm(v ssa.Value, c *ssa.CallCommon, depth int) *Term {
 	if name == "dynamic" {
 		args = append([]*Term{b.of(c.Value, at, depth+1)}, args...)
 	}
-	if name == "builtin.append" && len(args) == 2 {
+	if name == "builtin.append" && len(args) == 2 && (typeName(v.Type()) == "[]byte" || typeName(v.Type()) == "[]uint8") {
+		// the value of append(a, b...) on bytes is the concatenation a ‖ b, however a was built
 		base := args[0]
-		if base.Op == "concat" {
+		switch {
+		case base.Op == "concat":
 			return &Term{Op: "concat", V: v, Args: append(append([]*Term{}, base.Args...), args[1])}
-		}
-		if isEmptySlice(base) && typeName(v.Type()) == "[]byte" {
+		case isEmptySlice(base):
 			return &Term{Op: "concat", V: v, Args: []*Term{args[1]}}
+		default:
+			return &Term{Op: "concat", V: v, Args: []*Term{base, args[1]}}
 		}
 	}
 	return canonCall(&Term{Op: "call", Name: name, V: v, Args: args})
@@ -1056,6 +1059,9 @@ func (b *Builder) history(root ssa.Value, at ssa.Instruction, depth int) []*Term
 				}
 				if !hit {
 					continue
+				}
+				if n := CalleeName(c); n == "(*strings.Builder).Grow" || n == "(*bytes.Buffer).Grow" {
+					continue // capacity only: the contents are unchanged
 				}
 				t = b.selfCall(x, root, depth)
 			default:
